@@ -98,24 +98,33 @@ Ltac meta_tac :=
   intros s a H; repeat (destruct (String.eqb _ _) in H); try discriminate; injection H as <-; split; reflexivity.
 
 (* ---------- control channel ---------- *)
-Lemma ctl_layer_hidden T file c knows t s :
-  find_ctl T file = Some s -> ctl_site_ok s = true -> w_internal c = false -> knows ATok = false ->
-  visible knows (ctl_layer T file c t) = [].
+(* the control cipher is installed for every key value: no dependence on the token's content *)
+Lemma ctl_layer_spec T file c t s :
+  find_ctl T file = Some s -> ctl_site_ok s = true -> tb_crw T = CrwAlways -> w_internal c = false ->
+  ctl_layer T file c t = TCipher ATok t.
 Proof.
-  intros F Hs Hi Hk. unfold ctl_layer. rewrite F. unfold ctl_site_ok in Hs.
+  intros F Hs Hc Hi. unfold ctl_layer. rewrite F. unfold ctl_site_ok in Hs.
   destruct (cs_guard s); try discriminate. destruct (cs_key s) as [| [] | | | |]; try discriminate.
-  apply andb_true_iff in Hs. destruct Hs as [H1 _]. rewrite Hi. cbn. rewrite H1. cbn. now rewrite Hk.
+  apply andb_true_iff in Hs. destruct Hs as [H1 _]. rewrite Hi. cbn. rewrite H1, Hc. reflexivity.
+Qed.
+
+Lemma ctl_spec T c t :
+  ctl_ok T = true -> w_internal c = false ->
+  c2s T c t = TCipher ATok t /\ s2c T c t = TCipher ATok t.
+Proof.
+  unfold ctl_ok. intros H Hi. rewrite !andb_true_iff in H. destruct H as [[H _] Hc].
+  destruct (tb_crw T) eqn:Ec; [|discriminate].
+  destruct (find_ctl T "client/control.go") as [a|] eqn:Fa; [|discriminate].
+  destruct (find_ctl T "server/control.go") as [b|] eqn:Fb; [|discriminate].
+  apply andb_true_iff in H. destruct H as [Ha Hb].
+  split; [exact (ctl_layer_spec _ _ _ _ _ Fa Ha Ec Hi)|exact (ctl_layer_spec _ _ _ _ _ Fb Hb Ec Hi)].
 Qed.
 
 Lemma ctl_hidden T c knows t :
   ctl_ok T = true -> w_internal c = false -> knows ATok = false ->
   visible knows (c2s T c t) = [] /\ visible knows (s2c T c t) = [].
 Proof.
-  unfold ctl_ok. intros H Hi Hk. apply andb_true_iff in H. destruct H as [H _].
-  destruct (find_ctl T "client/control.go") as [a|] eqn:Fa; [|discriminate].
-  destruct (find_ctl T "server/control.go") as [b|] eqn:Fb; [|discriminate].
-  apply andb_true_iff in H. destruct H as [Ha Hb].
-  split; [exact (ctl_layer_hidden _ _ _ _ _ _ Fa Ha Hi Hk)|exact (ctl_layer_hidden _ _ _ _ _ _ Fb Hb Hi Hk)].
+  intros H Hi Hk. destruct (ctl_spec T c t H Hi) as [-> ->]. cbn. rewrite Hk. auto.
 Qed.
 
 (* ---------- payload layers ---------- *)
@@ -166,13 +175,14 @@ Proof. destruct comp; cbn; intros [<-|[]]; reflexivity. Qed.
 
 Lemma payload_term_atoms knows T p d x a : In a (visible knows (payload_term T p d x)) -> a = APayload x.
 Proof.
-  unfold payload_term. destruct d; [destruct (p_kind p)|]; intros H; apply enc_layer_atoms in H;
+  unfold payload_term. destruct d; destruct (p_kind p); intros H; apply enc_layer_atoms in H;
     now apply comp_payload_atoms in H.
 Qed.
 
 Lemma vpayload_term_atoms knows T v d x a : In a (visible knows (vpayload_term T v d x)) -> a = APayload x.
 Proof.
-  unfold vpayload_term. destruct d; intros H; apply enc_layer_atoms in H; now apply comp_payload_atoms in H.
+  unfold vpayload_term. destruct d; [|destruct (v_kind v)]; intros H; apply enc_layer_atoms in H;
+    now apply comp_payload_atoms in H.
 Qed.
 
 Lemma same_key_inv a b k : same_key a b k = true -> a = Some (XSecret k) /\ b = Some (XSecret k).
@@ -203,10 +213,10 @@ Lemma payload_term_spec T p d x :
   if p_enc p then TCipher ATok inner else inner.
 Proof.
   intros H. apply enc_parts in H. destruct H as [Hall Hp]. unfold pairs_ok in Hp.
-  rewrite !andb_true_iff in Hp. destruct Hp as [[H1 H2] H3].
-  apply same_key_inv in H1, H2. destruct H1 as [S1 C1], H2 as [S2 _].
+  rewrite !andb_true_iff in Hp. destruct Hp as [[[[H1 H2] H3] H4] H5].
+  apply same_key_inv in H1, H2, H4. destruct H1 as [S1 C1], H2 as [S2 _], H4 as [_ C4].
   unfold payload_term. cbv zeta.
-  destruct d; [destruct (p_kind p)|];
+  destruct d; destruct (p_kind p);
     rewrite (enc_layer_spec _ _ _ _ _ _ _ _ _ KTok Hall) by assumption; reflexivity.
 Qed.
 
@@ -218,10 +228,10 @@ Lemma vpayload_term_spec T v d x :
   if v_enc v then TCipher (ASk (v_sk v)) inner else inner.
 Proof.
   intros H. apply enc_parts in H. destruct H as [Hall Hp]. unfold pairs_ok in Hp.
-  rewrite !andb_true_iff in Hp. destruct Hp as [_ H3].
-  apply same_key_inv in H3. destruct H3 as [S1 C1].
+  rewrite !andb_true_iff in Hp. destruct Hp as [[[_ H3] _] H5].
+  apply same_key_inv in H3, H5. destruct H3 as [S1 C1], H5 as [_ C5].
   unfold vpayload_term. cbv zeta.
-  destruct d; rewrite (enc_layer_spec _ _ _ _ _ _ _ _ _ KSk Hall) by assumption; reflexivity.
+  destruct d; [|destruct (v_kind v)]; rewrite (enc_layer_spec _ _ _ _ _ _ _ _ _ KSk Hall) by assumption; reflexivity.
 Qed.
 
 (* every WithEncryption site of today's tree is guarded by the encryption flag and keyed by the
@@ -319,7 +329,7 @@ Section Secrets.
   Lemma nvc_no_secret v ts a : In a (visible knows (tr c (nvc_msg T v ts))) -> is_secret a = false.
   Proof.
     intros H. apply tr_sub in H. destruct H as [_ H]. revert H. unfold nvc_msg.
-    apply msg_of_no_secret; [|meta_tac]. intros fs E. exact (lit_fields_safe _ _ _ _ _ Hlits E).
+    apply msg_of_no_secret; [|meta_tac]. intros fs E. destruct (v_kind v); exact (lit_fields_safe _ _ _ _ _ Hlits E).
   Qed.
 
   Lemma swc_no_secret p a : In a (visible knows (tr c (swc_msg T p))) -> is_secret a = false.
@@ -446,7 +456,7 @@ Section Payload.
     destruct (find_ctl T file) as [s|]; [|left; cbn; tauto].
     destruct (match cs_guard s with GConnEnc => _ | GAlways => _ | _ => _ end) as [[]|];
       destruct (key_atom ctx0 (cs_key s)); try (left; cbn; tauto).
-    - destruct (String.eqb _ _); [left; cbn; tauto|]. destruct (in_dec atom_eq_dec (APayload x) (visible nobody t)); tauto.
+    - destruct (String.eqb _ _); [destruct (tb_crw T); left; cbn; tauto|]. destruct (in_dec atom_eq_dec (APayload x) (visible nobody t)); tauto.
     - destruct (String.eqb _ _); [left; cbn; tauto|]. destruct (in_dec atom_eq_dec (APayload x) (visible nobody t)); tauto.
   Qed.
 
@@ -588,3 +598,7 @@ Proof.
   intros Hq. unfold conn_tls, plan. rewrite Hq. unfold open_quic.
   destruct (if from_ptr (ct_tls_enable (w_client c)) then _ else _); [right; reflexivity|left; reflexivity].
 Qed.
+
+(* what everybody knows contains no secret unless the token is the empty string *)
+Lemma public_no_secret c : w_token_empty c = false -> forall a, is_secret a = true -> public c a = false.
+Proof. intros H [] Hs; cbn in *; try reflexivity; try discriminate. assumption. Qed.
